@@ -22,6 +22,8 @@ CHECKS = {
     "C04:Bag.json": lambda: H.chk_json("Bag", "reserialises-identically") or H.chk_json("Bag", "usable"),
     "C15:Bag.json": lambda: H.chk_c15("Bag"),
     "C04:Stack.build": lambda: H.chk_stack_build(),
+    "C04:duplicate-edges": lambda: H.chk_json_duplicate_edges(),
+    "C15:duplicate-edges": lambda: H.chk_json_duplicate_edges(),
     "C09:Bag.__eq__": lambda: H.chk_eq("Bag", "sound") or H.chk_eq("Bag", "complete") or H.chk_eq("Bag", "no-raise") or H.chk_eq("Bag", "sound", True) or H.chk_eq("Bag", "complete", True) or H.chk_eq("Bag", "no-raise", True),
     "C06:Bag.__eq__": lambda: H.chk_frame("Bag", "__eq__") or H.chk_frame("Bag", "__ne__"),
     **H13.CHECKS,
@@ -32,6 +34,7 @@ CHECKS = {
     "C01:Bag.vector": lambda: H.chk_bag_vector("merge"),
     "C08:Bag.vector": lambda: H.chk_bag_vector("scale"),
     "C09:Bag.vector": lambda: H.chk_bag_vector("eq"),
+    "C09:cross-class": lambda: H.chk_eq_cross_class(),
     "C09:clones": lambda: next((m for K in H.CLASSES for ne in (False, True) for m in [H.chk_eq(K, "complete", ne)] if m), None),
     "C17:string-expr": lambda: H.chk_c17("string-expr"),
     "C17:wrappers": lambda: H.chk_c17("orders") or H.chk_c17("second-name") or H.chk_c17("cached-call"),
